@@ -58,7 +58,8 @@ def deep_tree_task(task):
     changed = sorted(q for q in set(before) | set(after) if not q.startswith(t + b"/") and before.get(q) != after.get(q))
     return {"key": (cmd, i), "exc": o.get("exc"), "purged": (t + b"/files/deep") not in after,
             "bad": [{"verdict": "outside the trash directory: " + ", ".join(repr(q) for q in changed[:6]), "exc": o.get("exc"),
-                     "stderr": repr(o["stderr"][-300:]), "world": jsonable(world)}] if changed else []}
+                     "stderr": repr(o["stderr"][-300:]), "world": jsonable(world),
+                     "directed": {"fn": "deep_tree_task", "task": {"seed": task["seed"], "i": task["i"]}}}] if changed else []}
 
 
 def run(tier, seed):
@@ -77,4 +78,9 @@ def run(tier, seed):
 
 
 def replay(path):
+    import sys
+    from ..core import replay_directed
+    rc = replay_directed(sys.modules[__name__], "C11", path)
+    if rc is not None:
+        return rc
     return replay_family("C11", path, CFG)
